@@ -1,6 +1,7 @@
 """Layer E, expression emitters of w2c2/c.c at EVERY stack height (harness/e_expr.c): contracts with symbolic height h,
 symbolic operand types and symbolic ghost entries below; shared by the properties that depend on the slot discipline."""
 import os
+import re
 from .core import Job, VERIF, native_replay_generic
 from .elayer import ejob
 
@@ -77,6 +78,56 @@ def expr_jobs(ctx, which, solver="sat"):
                                  info=dict(layer="E", note="symbolic stack height h <= 2^24, symbolic operand and context types; "
                                            "array.c growth enters through its contract (job A.ensure_capacity)")))
     jobs += grow_jobs(ctx, [4])
+    return jobs
+
+
+# ---- (round 7) opcode -> runtime function tables of the load / store emitters, from the specification's mnemonics ----
+def _camel(m):
+    """i64.load16_s -> I64Load16S ; i32.atomic.load8_u -> I32AtomicLoad8U (the enum spelling of opcode.h)"""
+    out = ""
+    for part in m.replace(".", "_").split("_"):
+        out += part[0].upper() + part[1:]
+    return out
+_VT = {"i32": 0, "i64": 1, "f32": 2, "f64": 3}
+def _memops():
+    ops = []
+    for ty, widths in (("i32", ["8", "16"]), ("i64", ["8", "16", "32"])):
+        ops.append((0, ty + ".load")); ops.append((1, ty + ".store"))
+        for wd in widths:
+            ops += [(0, "%s.load%s_s" % (ty, wd)), (0, "%s.load%s_u" % (ty, wd)), (1, "%s.store%s" % (ty, wd))]
+            ops += [(2, "%s.atomic.load%s_u" % (ty, wd)), (3, "%s.atomic.store%s" % (ty, wd))]
+        ops += [(2, ty + ".atomic.load"), (3, ty + ".atomic.store")]
+    for ty in ("f32", "f64"):
+        ops += [(0, ty + ".load"), (1, ty + ".store")]
+    res = []
+    for kind, m in ops:
+        ty = m[:3]
+        mw = re.search(r"(?:load|store)(\d+)", m)
+        bits = int(mw.group(1)) if mw else int(ty[1:])
+        enum = ("wasmThreadsOpcode" if kind >= 2 else "wasmOpcode") + _camel(m)
+        res.append(dict(kind=kind, mnemonic=m, enum=enum, fn=m.replace(".", "_"), rt=_VT[ty], align={8: 0, 16: 1, 32: 2, 64: 3}[bits]))
+    return res
+MEMOPS = _memops()
+
+
+def memop_jobs(ctx, kinds, solver="sat"):
+    """one contract per load/store opcode (kinds: 0 plain load, 1 plain store, 2 atomic load, 3 atomic store) at every stack height;
+    quick: non-zero offsets, thorough: also the zero-offset text and the -p output"""
+    jobs = []
+    emit = {0: "wasmCWriteLoadExpr", 1: "wasmCWriteStoreExpr", 2: "wasmCWriteAtomicLoadExpr", 3: "wasmCWriteAtomicStoreExpr"}
+    inner = {0: "wasmCWriteLoad", 1: "wasmCWriteStore", 2: "wasmCWriteLoad", 3: "wasmCWriteStore"}
+    for op in MEMOPS:
+        if op["kind"] not in kinds:
+            continue
+        for offz in ((0, 1) if ctx.tier == "thorough" else (0,)):
+            for pr in ((0, 1) if ctx.tier == "thorough" else (0,)):
+                jobs.append(ejob(ctx, "E.h.op.%s%s%s" % (op["mnemonic"], ".off0" if offz else "", ".pretty" if pr else ""), "e_more.c", "h_memop",
+                                 ["c.c:" + emit[op["kind"]], "c.c:" + inner[op["kind"]], "c.c:wasmCWriteStringMemoryUse", "instruction.c:wasmMemoryArgumentInstructionRead", "leb128.h:leb128ReadU32"] + COMMON,
+                                 defines=["PRETTY=%d" % pr, "INDENT=%d" % (2 if pr else 0), "OFFZ=%d" % offz, "MEMOP_KIND=%d" % op["kind"], "MEMOP_OPC=" + op["enum"],
+                                          "MEMOP_FN=" + op["fn"], *(["NO_GROW=1"] if ctx.tier == "quick" else []), "MEMOP_RT=%d" % op["rt"], "MEMOP_ALIGN=%d" % op["align"]],
+                                 flags=["--unwind", "24", "--unwinding-assertions"], solver=solver, timeout=(900 if ctx.tier == "quick" else 1800),
+                                 info=dict(layer="E", note="opcode -> runtime function / result type / natural alignment from the mnemonic; symbolic stack height h <= 2^24, "
+                                           "symbolic offset (5-byte padded LEB) and alignment hint; array.c growth enters through its contract (job A.ensure_capacity)")))
     return jobs
 
 
